@@ -854,6 +854,36 @@ def grown_history(rng):
     return h
 
 
+def ratchet_update_history(rng):
+    """A ratchet mode (flag or [baseline] ratchet, every mode) together with --update-baseline new / content / structure in ONE
+    run with --baseline, after recorded content AND structure violations were resolved: only auto removes the resolved entries;
+    under warn / strict `new` keeps every existing entry and content / structure keep the entries of the other kind."""
+    st0 = list(rng.choice(["oo-oo", "oooo-", "oo-ooo", "ooooo", "o-ooo", "oOoo-o"]).ljust(len(UFILES), "-"))
+    h = [{"op": "edit", "state": "".join(st0)}, {"op": "update", "mode": "a", "we": False}]
+    st1 = list(st0)
+    over = [i for i, c in enumerate(st1) if c in "oO"]
+    for i in rng.sample(over, rng.randint(1, max(1, len(over) - 1))):
+        st1[i] = rng.choice("u-w")          # resolved (and a directory count may drop with a deleted file)
+    if rng.random() < 0.4:
+        free = [i for i, c in enumerate(st1) if c == "-"]
+        if free:
+            st1[rng.choice(free)] = "o"     # a new violation for `new` to add
+    h.append({"op": "edit", "state": "".join(st1)})
+    for _ in range(rng.randint(1, 2)):
+        fl = {"b": True, "u": rng.choice("nncs")}
+        m = rng.choice("wwssa")
+        r = rng.random()
+        if r < 0.45:
+            fl["rc"] = m
+        elif r < 0.8:
+            fl["rg"] = m
+        else:
+            fl["rc"], fl["rg"] = m, rng.choice("was")
+        h.append({"op": "check", "flags": fl, "files": None, "threads": rng.choice([1, 4])})
+    h.append({"op": "check", "flags": {"b": True, "rc": "s"}, "files": None})
+    return h
+
+
 def run_histories(exe, hists, depth0_of=lambda i: False, workers=16):
     """Replay many histories in parallel. Returns list of (hist, records) and spawn count."""
     out = [None] * len(hists)
@@ -1076,6 +1106,17 @@ def oracles_c10(rec, prev, fixed):
         if rec["exit"] == 1 and not fail and not (wae and warn) and not genuine:
             partial = rec["files"] is not None or is_ff(fl)
             out.append(("C10", "K10_partial_run" if partial else None, "strict_fails_only_for_resolved: exit 1 with no evaluated, resolved entry (reported: %s)" % rec["stale_reported"]))
+    if mode != "s" and not fl.get("wo") and rec["exit"] == 1:
+        wae = fl.get("wae") or fl.get("wae_cfg")
+        if not any(o["status"] == "F" for o in rec["obs"]) and not (wae and any(o["status"] == "W" for o in rec["obs"])):
+            out.append(("C10", None, "strict_fails_only_for_resolved: exit 1 with no failed result although the effective ratchet mode is %s (flag %s over config %s)" % (
+                RM.get(mode, mode), RM.get(fl.get("rc"), "-"), RM.get(fl.get("rg"), "-"))))
+    if mode in ("w", "s") and fl.get("b") and not is_ff(fl):
+        # warn / strict name exactly the evaluated, resolved entries (the flag wins over the configuration)
+        want = sorted(k for k in (d0 or {}) if k in ev and k not in still)
+        if want and sorted(rec["stale_reported"] or []) != want:
+            out.append(("C10", None, "mode_precedence: effective ratchet mode %s (flag %s over config %s): stale paths reported %s, evaluated and resolved %s" % (
+                RM[mode], RM.get(fl.get("rc"), "-"), RM.get(fl.get("rg"), "-"), rec["stale_reported"], want)))
     if rec.get("rerun_of_auto"):
         if (d1 or {}) != (d0 or {}):
             out.append(("C10", None, "auto_fixpoint: rerun after an auto tightening removed %s" % removed))
